@@ -33,12 +33,38 @@ fn at(log: &Log, what: &str) -> Option<Instant> {
 
 async fn phase(transport: &str, why: &mut Vec<String>) {
     let log: Log = Default::default();
-    let server = Server::builder().build("127.0.0.1:0").await.unwrap();
-    let addr = server.local_addr().unwrap();
-    let handle = server.start(module(log.clone()));
+    let low_level = transport.starts_with("low-level-");
+    let (addr, handle) = if low_level {
+        // the documented low-level assembly: a service per connection from the service builder, driven by serve_with_graceful_shutdown
+        use jsonrpsee_server::{serve_with_graceful_shutdown, stop_channel};
+        let listener = tokio::net::TcpListener::bind("127.0.0.1:0").await.unwrap();
+        let addr = listener.local_addr().unwrap();
+        let (stop_handle, server_handle) = stop_channel();
+        let svc_builder = Server::builder().to_service_builder();
+        let methods = module(log.clone());
+        tokio::spawn(async move {
+            loop {
+                let (sock, _) = tokio::select! {
+                    r = listener.accept() => match r { Ok(s) => s, Err(_) => continue },
+                    _ = stop_handle.clone().shutdown() => break,
+                };
+                let svc = svc_builder.clone().build(methods.clone(), stop_handle.clone());
+                let conn_stop = stop_handle.clone();
+                tokio::spawn(async move {
+                    let _ = serve_with_graceful_shutdown(sock, svc, conn_stop.clone().shutdown()).await;
+                    drop(conn_stop);
+                });
+            }
+        });
+        (addr, server_handle)
+    } else {
+        let server = Server::builder().build("127.0.0.1:0").await.unwrap();
+        (server.local_addr().unwrap(), server.start(module(log.clone())))
+    };
+    let transport_kind = transport.trim_start_matches("low-level-");
     let call = r#"{"jsonrpc":"2.0","id":1,"method":"slow","params":[7]}"#;
     // the in-flight call
-    let answer: tokio::task::JoinHandle<(Option<String>, Instant)> = if transport == "ws" {
+    let answer: tokio::task::JoinHandle<(Option<String>, Instant)> = if transport_kind == "ws" {
         let sock = TcpStream::connect(addr).await.unwrap();
         let host = addr.to_string();
         let mut client = soketto::handshake::Client::new(sock.compat(), &host, "/");
@@ -171,6 +197,14 @@ async fn queued_answers_phase(why: &mut Vec<String>) {
     tokio::time::sleep(Duration::from_millis(400)).await;
     gates.small.notify_one();
     tokio::time::sleep(Duration::from_millis(400)).await;
+    // the client has read nothing yet: 48 MiB cannot have been written, so `stopped` must still be pending
+    let h2 = handle.clone();
+    let mut stopped = Box::pin(async move { h2.stopped().await });
+    // (serialising the big answer takes its time in an unoptimised build: the window is generous)
+    let resolved_early = tokio::time::timeout(Duration::from_secs(5), &mut stopped).await.is_ok();
+    if resolved_early {
+        why.push("ws-queue: `stopped` resolved although answers of calls started before stop() were still waiting to be written".to_string());
+    }
     // now the client starts reading: both answers must arrive before the connection is closed
     let mut got = vec![];
     let mut buf = Vec::new();
@@ -188,6 +222,9 @@ async fn queued_answers_phase(why: &mut Vec<String>) {
     if got != vec![1, 2] {
         why.push(format!("ws-queue: of the two calls started before stop() only the answers {got:?} arrived; both must be written before the connection is closed"));
     }
+    if !resolved_early && got == vec![1, 2] && tokio::time::timeout(Duration::from_secs(6), &mut stopped).await.is_err() {
+        why.push("ws-queue: `stopped` did not resolve after all answers were written".to_string());
+    }
     drop(tx);
     drop(handle);
 }
@@ -198,6 +235,8 @@ pub fn graceful_stop(_a: &Value) -> Value {
         let mut why: Vec<String> = vec![];
         phase("ws", &mut why).await;
         phase("http", &mut why).await;
+        phase("low-level-http", &mut why).await;
+        phase("low-level-ws", &mut why).await;
         queued_answers_phase(&mut why).await;
         json!({"scenario":"c10_graceful_stop","observed":{},"violation":!why.is_empty(),"why":why.join(" | ")})
     })
